@@ -351,3 +351,30 @@ def run_table(ctx, rule, key, paths, outcome_of, spec, loc_=None, extra_exprs=()
               "%s: decision table equals the specification on all %d worlds (%d paths)" % (what, n, len(paths)),
               "%s: decision table differs from the specification in %d of %d worlds, e.g. %s" % (what, nbad, n, bad[:2]), loc_)
     return tb
+
+
+def control_dependent_on(body, site_block, pred, conds=None):
+    """Is `site_block` control dependent on some branch whose tested condition satisfies pred
+    (polarity-agnostic)?  True iff there is a switch block B with an edge Cond satisfying pred such that
+    the site is reachable from one successor of B but not from another (without passing B again).
+    returns (bool, [B...])"""
+    if conds is None:
+        conds = edge_conditions(body)
+    by_src = {}
+    for eid, c in conds.items():
+        by_src.setdefault(c.edge["src"], []).append(c)
+    hits = []
+    for src, cs in by_src.items():
+        if not any(pred(c) for c in cs):
+            continue
+        reach = []
+        for c in cs:
+            dst = c.edge["dst"]
+            if dst == site_block:
+                reach.append(True)
+                continue
+            seen, _p = body.reach_from(dst, avoid_blocks=frozenset([src]))
+            reach.append(site_block in seen)
+        if any(reach) and not all(reach):
+            hits.append(src)
+    return bool(hits), hits
